@@ -21,7 +21,8 @@
      WaterMark.process goroutine until oracle.Stop();
    * RunValueLogGC: vlog.garbageCh token, rewrite -> db.batchSet (a sender without writeChLock);
    * DB.Close: db.go close() in code order; DropAll / DropPrefix: blockWrite, prepareToDrop,
-     stopMemoryFlush, stopCompactions, the drop, startCompactions, startMemoryFlush, unblockWrite.
+     stopMemoryFlush, (DropPrefix only: filterPrefixesToDrop's db.View = a readTs wait, phase
+     DView), stopCompactions, the drop, startCompactions, startMemoryFlush, unblockWrite.
 
    Abstractions (stated again in checks/C38.json):
    * polling loops (time.Sleep + retry: errNoRoom, the L0 stall loop, Close's flushChan push)
